@@ -55,32 +55,34 @@ variable {W : Colls} {types : Types} (hW : W.mem types) (hs : Sane types) {S : N
 /-- the state in which a nested instance is merged: the target's nested interface has been copied
 to the end of the arena, and the copy is the only additional mutable interface -/
 theorem nstate_push {s0 : AggState} {F0 : Forest} (hT : NState W types S e s0 F0) {ti : Interface}
-    (hti : s0.agg.types.interfaces[e]? = some ti) {n : Str} {t : Nat} (hsome : amGet ti.exports n = some (.instance t))
+    (hti : s0.agg.types.interfaces[e]? = some ti) {n : Str} {w : Bool} {t : Nat}
+    (hsome : amGet ti.exports n = some (wrapK w t))
     {copy : Interface} (hcopy : s0.agg.types.interfaces[t]? = some copy) :
-    ∃ Ft, F0.get n = some (.instance Ft) ∧
+    ∃ Ft, F0.get n = some (wrapT w (.instance Ft)) ∧
       NState W types (fun j => S j ∨ j = s0.agg.types.interfaces.length) s0.agg.types.interfaces.length
         (pushIface s0 copy) Ft := by
   obtain ⟨ti', hti', m, hm⟩ := hT.itf
   rw [hti] at hti'; cases hti'
-  have hmem : (n, ItemKind.instance t) ∈ ti.exports := alGet_mem _ _ _ (by rw [← amGet_eq_alGet]; exact hsome)
+  have hmem : (n, wrapK w t) ∈ ti.exports := alGet_mem _ _ _ (by rw [← amGet_eq_alGet]; exact hsome)
   obtain ⟨tf, htf, hFn⟩ := (unfoldItems_get ti.exports F0 n hm).2 _ (by rw [← amGet_eq_alGet]; exact hsome)
   have htfnd : tf.namesDistinct = true := Forest.nd_get F0 n tf hT.nd hFn
   obtain ⟨m', rfl⟩ : ∃ m', m = m' + 1 := by
     cases m with
     | zero => simp [Types.unfoldKind] at htf
     | succ m' => exact ⟨m', rfl⟩
-  simp only [Types.unfoldKind, hcopy] at htf
+  rw [unfoldKind_wrapK] at htf
+  simp only [hcopy] at htf
   obtain ⟨Ft, hFt, rfl⟩ := Option.map_eq_some_iff.1 htf
-  have hFtnd : Ft.namesDistinct = true := by simpa [Tree.namesDistinct] using htfnd
+  have hFtnd : Ft.namesDistinct = true := by simpa [nd_wrapT, Tree.namesDistinct] using htfnd
   let L := s0.agg.types.interfaces.length
   let S' : Nat → Prop := fun j => S j ∨ j = L
   have hextP : Ext s0.agg.types (pushIface s0 copy).agg.types := ext_of_eq rfl rfl rfl rfl
   have hfrP : ∀ S0 : Nat → Prop, Frame S0 s0.agg.types (pushIface s0 copy).agg.types := fun S0 =>
     ⟨hextP, by simp [pushIface], fun j hj _ => by simp [pushIface, List.getElem?_append_left hj]⟩
   have hfzS' : ∀ k, FrozenK s0.agg.types S k → FrozenK (pushIface s0 copy).agg.types S' k := by
-    rintro k (h | ⟨t', rfl, h2, h3⟩)
+    rintro k (h | ⟨w', t', rfl, h2, h3⟩)
     · exact .inl h
-    · refine .inr ⟨t', rfl, ?_, by simp [pushIface]; omega⟩
+    · refine .inr ⟨w', t', rfl, ?_, by simp [pushIface]; omega⟩
       rintro (hc | hc)
       · exact h2 hc
       · exact absurd hc (Nat.ne_of_lt h3)
@@ -103,7 +105,7 @@ theorem nstate_push {s0 : AggState} {F0 : Forest} (hT : NState W types S e s0 F0
     · subst hj; simp [pushIface]
   · intro i i' hg
     obtain ⟨a, b, c⟩ := hT.ni.ik i i' hg
-    refine ⟨?_, by simp [pushIface]; omega, fun t0 ht0 => (c t0 ht0).frame hT.ni.iwf (hfrP S) (.inr ⟨i', rfl, a, b⟩)⟩
+    refine ⟨?_, by simp [pushIface]; omega, fun t0 ht0 => (c t0 ht0).frame hT.ni.iwf (hfrP S) (.inr ⟨false, i', rfl, a, b⟩)⟩
     rintro (hc | hc)
     · exact a hc
     · exact absurd hc (Nat.ne_of_lt b)
@@ -119,19 +121,44 @@ def MergeTot (W : Colls) (types : Types) (fuel : Nat) : Prop :=
       (∃ msg, mergeInterface fuel e types id s = .error (.err msg) ∧ meetShared F G = none)
 
 omit hW hs in
-theorem source_instance_rank {i m : Nat} {ts : Tree} (hts : types.unfoldKind m (.instance i) = some ts) :
-    ∃ m' G, m = m' + 1 ∧ ts = .instance G ∧ ∀ si, types.interfaces[i]? = some si →
+theorem source_instance_rank {w : Bool} {i m : Nat} {ts : Tree} (hts : types.unfoldKind m (wrapK w i) = some ts) :
+    ∃ m' G, m = m' + 1 ∧ ts = wrapT w (.instance G) ∧ ∀ si, types.interfaces[i]? = some si →
       unfoldItems (types.unfoldKind m') si.exports = some G := by
   cases m with
   | zero => simp [Types.unfoldKind] at hts
   | succ m' =>
-    simp only [Types.unfoldKind] at hts
+    rw [unfoldKind_wrapK] at hts
     cases hi : types.interfaces[i]? with
     | none => simp [hi] at hts
     | some si =>
       simp only [hi] at hts
       obtain ⟨G, hG, rfl⟩ := Option.map_eq_some_iff.1 hts
       exact ⟨m', G, rfl, rfl, fun si' hsi' => by cases hsi'; exact hG⟩
+
+omit hW hs in
+theorem meet_eqK_wrap {a : Tree} (w : Bool) (G : Forest) (h : isEqK a = true) : meet a (wrapT w (.instance G)) = none := by
+  rw [meet_eqK a _ h]
+  have : (a == wrapT w (Tree.instance G)) = false := by
+    rw [Bool.eq_false_iff]; intro hc
+    have : a = wrapT w (.instance G) := by simpa using hc
+    subst this
+    cases w <;> simp [wrapT, isEqK, isEqKind] at h
+  simp [this]
+
+omit hW hs in
+theorem meet_wrap_eqK (w : Bool) (F : Forest) {b : Tree} (h : isEqK b = true) : meet (wrapT w (.instance F)) b = none := by
+  cases w with
+  | false => exact meet_instance_eqK F h
+  | true =>
+    cases b with
+    | type b' =>
+      have h' : isEqKind b' = true := h
+      simp only [wrapT, meet, meet_instance_eqK F (isEqK_of_eqKind h'), Option.map_none]
+    | _ => simp [wrapT, meet]
+
+omit hW hs in
+theorem meet_wrap_ne (w : Bool) (F G : Forest) : meet (wrapT w (.instance F)) (wrapT (!w) (.instance G)) = none := by
+  cases w <;> simp [wrapT, meet]
 
 include hW hs in
 /-- one iteration of the loop is total -/
@@ -154,7 +181,7 @@ theorem mergeExport_ntotal {fuel : Nat} (hIHt : MergeTot W types fuel) {d m : Na
     have hmem : (n, tk) ∈ ti.exports := alGet_mem _ _ _ (by rw [← amGet_eq_alGet]; exact hget)
     have hcinv := hT0.ni.ainv.cinv
     obtain ⟨tf, htf, hFn⟩ := (unfoldItems_get ti.exports F0 n hmt).2 tk (by rw [← amGet_eq_alGet]; exact hget)
-    rcases hT0.ni.iwf e ti hti _ hmem with ltk | ⟨t, rfl, hnS, htl⟩ <;> rcases hsk with lk | ⟨sid, rfl, hsrc⟩
+    rcases hT0.ni.iwf e ti hti _ hmem with ltk | ⟨wt, t, rfl, hnS, htl⟩ <;> rcases hsk with lk | ⟨ws, sid, rfl, hsrc⟩
     · -- leaf / leaf
       obtain ⟨r, c', hr, _, _, hne, tf', hFn', hiff⟩ :=
         keepExport_core hW hs (e := e) hT0.ni.ainv hT0.nd hmt hget ltk lk hts' htsnd
@@ -230,70 +257,105 @@ theorem mergeExport_ntotal {fuel : Nat} (hIHt : MergeTot W types fuel) {d m : Na
         | value _ => exact fin (key _)
         | _ => cases ltk
       | _ => cases ltk
-    · -- target leaf, source instance: the kinds cannot be related
+    · -- target leaf, source instance / type of interface: the kinds cannot be related
       right
-      obtain ⟨⟨m1, h1⟩, _⟩ := chk_mismatch s0 hcinv types s0.agg.types (.instance sid) tk (.inr ⟨⟨sid, rfl⟩, ltk⟩)
-      obtain ⟨_, ⟨m2, h2⟩⟩ := chk_mismatch s0 hcinv s0.agg.types types tk (.instance sid) (.inl ⟨ltk, sid, rfl⟩)
+      obtain ⟨⟨m1, h1⟩, _⟩ := chk_mismatch s0 hcinv types s0.agg.types (wrapK ws sid) tk
+        (innerFalls_wrap_leaf ltk ws sid) (.inl (wrapK_not_leaf ws sid))
+      obtain ⟨_, ⟨m2, h2⟩⟩ := chk_mismatch s0 hcinv s0.agg.types types tk (wrapK ws sid)
+        (innerFalls_leaf_wrap ltk ws sid) (.inr (wrapK_not_leaf ws sid))
       obtain ⟨_, Gs, _, rfl, _⟩ := source_instance_rank hts
-      have hnone : meet tf (.instance Gs) = none := meet_eqK_instance Gs (eqKind_unfoldLeaf ltk htf)
+      have hnone : meet tf (wrapT ws (.instance Gs)) = none := meet_eqK_wrap ws Gs (eqKind_unfoldLeaf ltk htf)
       refine ⟨(s!"mismatched type for export `{strS n}`" ++ ": " ++ m2), tf, ?_, hFn, hnone⟩
-      cases tk with
-      | func _ => simp only [run_bind, h1, run_getAgg, withCtx, h2]
-      | value _ => simp only [run_bind, h1, run_getAgg, withCtx, h2]
-      | type ty =>
-        cases ty with
-        | func _ => simp only [run_bind, h1, run_getAgg, withCtx, h2]
-        | value _ => simp only [run_bind, h1, run_getAgg, withCtx, h2]
-        | _ => cases ltk
-      | _ => cases ltk
-    · -- target instance, source leaf
-      right
-      obtain ⟨⟨m1, h1⟩, _⟩ := chk_mismatch s0 hcinv types s0.agg.types sk (.instance t) (.inl ⟨lk, t, rfl⟩)
-      obtain ⟨_, ⟨m2, h2⟩⟩ := chk_mismatch s0 hcinv s0.agg.types types (.instance t) sk (.inr ⟨⟨t, rfl⟩, lk⟩)
-      obtain ⟨mt', rfl⟩ : ∃ mt', mt = mt' + 1 := by
-        cases mt with
-        | zero => simp [Types.unfoldKind] at htf
-        | succ mt' => exact ⟨mt', rfl⟩
-      have htf' := htf
-      simp only [Types.unfoldKind] at htf'
-      cases hcopy : s0.agg.types.interfaces[t]? with
-      | none => simp [hcopy] at htf'
-      | some copy =>
-        simp only [hcopy] at htf'
-        obtain ⟨Ft, _, rfl⟩ := Option.map_eq_some_iff.1 htf'
-        have hnone : meet (.instance Ft) ts = none := meet_instance_eqK Ft (eqKind_unfoldLeaf lk hts)
-        refine ⟨(s!"mismatched type for export `{strS n}`" ++ ": " ++ m2), .instance Ft, ?_, hFn, hnone⟩
-        cases sk with
-        | func _ => simp only [run_bind, h1, run_getAgg, withCtx, h2]
-        | value _ => simp only [run_bind, h1, run_getAgg, withCtx, h2]
-        | type ty =>
-          cases ty with
+      cases ws <;> simp only [wrapK] at h1 h2 ⊢ <;>
+        (cases tk with
           | func _ => simp only [run_bind, h1, run_getAgg, withCtx, h2]
           | value _ => simp only [run_bind, h1, run_getAgg, withCtx, h2]
-          | _ => cases lk
-        | _ => cases lk
-    · -- both instances: merge on a copy
+          | type ty =>
+            cases ty with
+            | func _ => simp only [run_bind, h1, run_getAgg, withCtx, h2]
+            | value _ => simp only [run_bind, h1, run_getAgg, withCtx, h2]
+            | _ => cases ltk
+          | _ => cases ltk)
+    · -- target instance / type of interface, source leaf
+      right
+      obtain ⟨⟨m1, h1⟩, _⟩ := chk_mismatch s0 hcinv types s0.agg.types sk (wrapK wt t)
+        (innerFalls_leaf_wrap lk wt t) (.inr (wrapK_not_leaf wt t))
+      obtain ⟨_, ⟨m2, h2⟩⟩ := chk_mismatch s0 hcinv s0.agg.types types (wrapK wt t) sk
+        (innerFalls_wrap_leaf lk wt t) (.inl (wrapK_not_leaf wt t))
+      obtain ⟨_, Ft, _, rfl, _⟩ := source_instance_rank htf
+      have hnone : meet (wrapT wt (.instance Ft)) ts = none := meet_wrap_eqK wt Ft (eqKind_unfoldLeaf lk hts)
+      refine ⟨(s!"mismatched type for export `{strS n}`" ++ ": " ++ m2), wrapT wt (.instance Ft), ?_, hFn, hnone⟩
+      cases wt <;> simp only [wrapK] at h1 h2 ⊢ <;>
+        (cases sk with
+          | func _ => simp only [run_bind, h1, run_getAgg, withCtx, h2]
+          | value _ => simp only [run_bind, h1, run_getAgg, withCtx, h2]
+          | type ty =>
+            cases ty with
+            | func _ => simp only [run_bind, h1, run_getAgg, withCtx, h2]
+            | value _ => simp only [run_bind, h1, run_getAgg, withCtx, h2]
+            | _ => cases lk
+          | _ => cases lk)
+    · -- both nested kinds
       obtain ⟨copy, hcopy⟩ : ∃ copy, s0.agg.types.interfaces[t]? = some copy :=
         ⟨s0.agg.types.interfaces[t], by simp [List.getElem?_eq_getElem htl]⟩
       obtain ⟨Ft, hFt, hTP⟩ := nstate_push hT0 hti hget hcopy
       obtain ⟨m', Gs, rfl, rfl, hGs⟩ := source_instance_rank hts
-      have hGsnd : Gs.namesDistinct = true := by simpa [Tree.namesDistinct] using htsnd
+      have hGsnd : Gs.namesDistinct = true := by simpa [nd_wrapT, Tree.namesDistinct] using htsnd
       have hrec := hIHt _ s0.agg.types.interfaces.length sid m' (pushIface s0 copy) Ft Gs d hTP hcfg hsrc hGs
         (by omega) hGsnd (by omega)
-      simp only [hT0.nested, ↓reduceIte, hcopy, run_bind, run_pure, run_modifyTypes]
-      rcases hrec with ⟨s2, h2⟩ | ⟨msg, h2, hnone⟩
-      · left
-        have h2' : mergeInterface fuel s0.agg.types.interfaces.length types sid
-            { s0 with agg := { s0.agg with types := { s0.agg.types with interfaces := s0.agg.types.interfaces ++ [copy] } } } =
-            .ok ((), s2) := h2
-        simp only [withCtx, h2', run_pure, Bool.not_true, Bool.false_eq_true, ↓reduceIte]
-        exact ⟨_, rfl⟩
-      · right
-        have h2' : mergeInterface fuel s0.agg.types.interfaces.length types sid
-            { s0 with agg := { s0.agg with types := { s0.agg.types with interfaces := s0.agg.types.interfaces ++ [copy] } } } =
-            .error (.err msg) := h2
-        refine ⟨(s!"mismatched type for export `{strS n}`" ++ ": " ++ msg), .instance Ft, ?_, hFt, by simp [meet, hnone]⟩
-        simp only [withCtx, h2']
+      cases wt with
+      | false =>
+        cases ws with
+        | false =>
+          simp only [wrapK, hT0.nested.1, ↓reduceIte, hcopy, run_bind, run_pure, run_modifyTypes]
+          rcases hrec with ⟨s2, h2⟩ | ⟨msg, h2, hnone⟩
+          · left
+            have h2' : mergeInterface fuel s0.agg.types.interfaces.length types sid
+                { s0 with agg := { s0.agg with types := { s0.agg.types with interfaces := s0.agg.types.interfaces ++ [copy] } } } =
+                .ok ((), s2) := h2
+            simp only [withCtx, h2', run_pure, Bool.not_true, Bool.false_eq_true, ↓reduceIte]
+            exact ⟨_, rfl⟩
+          · right
+            have h2' : mergeInterface fuel s0.agg.types.interfaces.length types sid
+                { s0 with agg := { s0.agg with types := { s0.agg.types with interfaces := s0.agg.types.interfaces ++ [copy] } } } =
+                .error (.err msg) := h2
+            refine ⟨(s!"mismatched type for export `{strS n}`" ++ ": " ++ msg), _, ?_, hFt, by rw [meet_wrapT]; simp [meet, hnone]⟩
+            simp only [withCtx, h2']
+        | true =>
+          right
+          obtain ⟨⟨m1, h1⟩, _⟩ := chk_mismatch s0 hcinv types s0.agg.types (wrapK true sid) (wrapK false t) rfl
+            (.inl (wrapK_not_leaf true sid))
+          obtain ⟨_, ⟨m2, h2⟩⟩ := chk_mismatch s0 hcinv s0.agg.types types (wrapK false t) (wrapK true sid) rfl
+            (.inl (wrapK_not_leaf false t))
+          refine ⟨(s!"mismatched type for export `{strS n}`" ++ ": " ++ m2), _, ?_, hFt, meet_wrap_ne false Ft Gs⟩
+          simp only [wrapK] at h1 h2 ⊢
+          simp only [run_bind, h1, run_getAgg, withCtx, h2]
+      | true =>
+        cases ws with
+        | false =>
+          right
+          obtain ⟨⟨m1, h1⟩, _⟩ := chk_mismatch s0 hcinv types s0.agg.types (wrapK false sid) (wrapK true t) rfl
+            (.inl (wrapK_not_leaf false sid))
+          obtain ⟨_, ⟨m2, h2⟩⟩ := chk_mismatch s0 hcinv s0.agg.types types (wrapK true t) (wrapK false sid) rfl
+            (.inl (wrapK_not_leaf true t))
+          refine ⟨(s!"mismatched type for export `{strS n}`" ++ ": " ++ m2), _, ?_, hFt, meet_wrap_ne true Ft Gs⟩
+          simp only [wrapK] at h1 h2 ⊢
+          simp only [run_bind, h1, run_getAgg, withCtx, h2]
+        | true =>
+          simp only [wrapK, hT0.nested.2, ↓reduceIte, hcopy, run_bind, run_pure, run_modifyTypes]
+          rcases hrec with ⟨s2, h2⟩ | ⟨msg, h2, hnone⟩
+          · left
+            have h2' : mergeInterface fuel s0.agg.types.interfaces.length types sid
+                { s0 with agg := { s0.agg with types := { s0.agg.types with interfaces := s0.agg.types.interfaces ++ [copy] } } } =
+                .ok ((), s2) := h2
+            simp only [withCtx, h2', run_pure, Bool.not_true, Bool.false_eq_true, ↓reduceIte]
+            exact ⟨_, rfl⟩
+          · right
+            have h2' : mergeInterface fuel s0.agg.types.interfaces.length types sid
+                { s0 with agg := { s0.agg with types := { s0.agg.types with interfaces := s0.agg.types.interfaces ++ [copy] } } } =
+                .error (.err msg) := h2
+            refine ⟨(s!"mismatched type for export `{strS n}`" ++ ": " ++ msg), _, ?_, hFt, by rw [meet_wrapT]; simp [meet, hnone]⟩
+            simp only [withCtx, h2']
 
 include hW hs in
 /-- **`merge_interface` on nested interfaces is total**: with enough fuel it returns `Ok`, or an
